@@ -106,7 +106,10 @@ def harness(ctx):
             log.append(("finalize",))
             return result
 
-    self_ = _Rec()
+    # a REAL RewritingContext (so that whatever state __init__ sets up exists), with the collaborators under contract replaced
+    from gtirb_test_helpers import create_test_module
+    _ir, _m = create_test_module(gtirb.Module.FileFormat.ELF, gtirb.Module.ISA.X64)
+    self_ = RW.RewritingContext(_m, [])
     self_._abi = FakeABI()
     self_._leaf_functions = {fn_uuid: leafv} if in_table else {}
     self_._patch_id = 41
